@@ -168,7 +168,7 @@ def main():
             bad += 1
         print("%-28s %-12s paths=%-4d inputs=%-3d %s" % (name, status, paths, checked, "" if detail is None else str(detail)[:200]))
     out = {"functions": len(results), "not_ok": bad, "seconds": round(time.time() - t0, 1), "results": results}
-    json.dump(out, open(os.path.join(ROOT, "evidence", "selftest.json"), "w"), indent=1, default=repr)
+    json.dump(out, open(os.path.join(ROOT, "tools", "selftest_report.json"), "w"), indent=1, default=repr)
     print("selftest: %d functions, %d not ok" % (len(results), bad))
     return 1 if any(r["status"] == "MISMATCH" for r in results) else 0
 
